@@ -36,14 +36,16 @@ func genWalletCase(rng *rand.Rand, idx int) WalletCase {
 }
 
 func phaseWallet(r *mon.Run) {
+	g := &guard{r: r, phase: "wallet"}
 	n := r.Pick(40, 300)
 	for i := 0; i < n; i++ {
 		c := genWalletCase(r.RNG(0xF000+uint64(i)), i)
 		if i == 0 {
 			r.Sample(c)
 		}
-		runWalletCase(r, c)
+		g.run(func() { runWalletCase(r, c) })
 	}
+	g.done()
 }
 
 func walletOnly(g limitlab.Goroutine) bool { return !g.Has("coreutils/wallet.") }
